@@ -44,18 +44,44 @@ fn eval_rect(x: f32, y: f32, w: f32, h: f32, prefix: bool) -> Result<u64, Violat
 
 // ---------------------------------------------------------------- arc
 
-fn eval_arc(cx: f32, cy: f32, r: f32, start: f32, sweep: f32, with_cur: bool) -> Result<u64, Violation> {
-    let case = format!("kind=arc cx={:?} cy={:?} r={:?} start={:?} sweep={:?} cur={}", cx, cy, r, start, sweep, with_cur as i32);
-    let path = guard(|| {
+/// `ctx`: what the builder holds when arc() is called. 0 nothing; 1 a MoveTo elsewhere; 2 a closed
+/// subpath that began elsewhere and whose last vertex is exactly the arc's start point (after the
+/// Close the current point is the subpath's start, so the leading line is still needed); 3 the
+/// same arc, closed, then the arc again
+fn eval_arc(cx: f32, cy: f32, r: f32, start: f32, sweep: f32, ctx: u8) -> Result<u64, Violation> {
+    let case = format!("kind=arc cx={:?} cy={:?} r={:?} start={:?} sweep={:?} cur={}", cx, cy, r, start, sweep, ctx);
+    let (path, skip) = guard(|| {
         let mut pb = PathBuilder::new();
-        if with_cur {
+        let mut skip = 0;
+        if ctx >= 1 {
             pb.move_to(-7., 3.);
+            skip += 1;
+        }
+        if ctx == 2 {
+            let mut probe = PathBuilder::new();
+            probe.arc(cx, cy, r, start, sweep);
+            if let Some(PathOp::LineTo(p)) = probe.finish().ops.first() {
+                pb.line_to(p.x, p.y);
+                pb.close();
+                skip += 2;
+            }
+        }
+        if ctx == 3 {
+            let mut probe = PathBuilder::new();
+            probe.arc(cx, cy, r, start, sweep);
+            let n = probe.finish().ops.len();
+            pb.arc(cx, cy, r, start, sweep);
+            pb.close();
+            skip += n + 1;
         }
         pb.arc(cx, cy, r, start, sweep);
-        pb.finish()
+        (pb.finish(), skip)
     })
     .map_err(|e| Violation::new("arc/panic", case.clone(), e))?;
-    let ops = &path.ops[if with_cur { 1 } else { 0 }..];
+    if path.ops.len() < skip {
+        return Err(Violation::new("arc/ops-missing", case, format!("{} ops, expected at least {}", path.ops.len(), skip)));
+    }
+    let ops = &path.ops[skip..];
     let bad = |clause: &str, d: String| Err(Violation::new(format!("arc/{}", clause), case.clone(), format!("{}\nops: {}", d, ops_dbg(ops))));
     let (c, rr, s, sw) = ((cx as f64, cy as f64), r as f64, start as f64, sweep as f64);
     let tol_r = 0.005 * rr + 1e-4;
@@ -231,12 +257,12 @@ impl Check for C20 {
                 sweeps.push(-s);
             }
         }
-        run.bound("arc", format!("{} centres x {} radii x {} start angles x {} sweeps x with/without current point", centres.len(), radii.len(), starts.len(), sweeps.len()));
+        run.bound("arc", format!("{} centres x {} radii x {} start angles x {} sweeps x 4 builder contexts (empty, MoveTo elsewhere, closed subpath ending on the arc start, the same arc closed before)", centres.len(), radii.len(), starts.len(), sweeps.len()));
         run.par(starts.len(), |si, l| {
             for &(cx, cy) in &centres {
                 for &r in &radii {
                     for &sw in &sweeps {
-                        for cur in [false, true] {
+                        for cur in [0u8, 1, 2, 3] {
                             l.states += 1;
                             l.transitions += 1;
                             l.traces += 1;
@@ -290,6 +316,50 @@ impl Check for C20 {
             let mut st = vec![a0];
             rec(run, a0, l, &alpha, &mut st, depth);
         });
+        // transforms with extreme coefficients (tiny skews and rotations on huge coordinates): every
+        // matrix entry takes part, however small
+        let xfs2: Vec<Xf> = vec![
+            [1., 0., 5e-7, 1., 0., 0.],
+            [1., 5e-7, 0., 1., 0., 0.],
+            [0.8660254 * 9e-7, 0.5 * 9e-7, -0.5 * 9e-7, 0.8660254 * 9e-7, 0., 0.],
+            [1e-7, 0., 0., 1e-7, 0., 0.],
+            [1., 1e-9, 1e-9, 1., 0., 0.],
+            [1e6, 3e-7, -3e-7, 1e6, 0., 0.],
+            [1., 1e-6, -1e-6, 1., 1e-7, -1e-7],
+            [2., 0., 9e-7, 0.5, 3., 4.],
+        ];
+        let scales = [1.0f32, 4e6, 1e-6];
+        run.bound("transform with extreme coefficients", format!("all op strings of length 1..=2 over {} ops with coordinates x {:?} x {} transforms with entries down to 1e-9", alpha.len(), scales, xfs2.len()));
+        run.par(alpha.len(), |a0, l| {
+            for a1 in 0..=alpha.len() {
+                for &k in &scales {
+                    let sc = |o: POp| -> POp {
+                        match o {
+                            POp::M(x, y) => POp::M(x * k, y * k),
+                            POp::L(x, y) => POp::L(x * k, y * k),
+                            POp::Q(a, b, c, d) => POp::Q(a * k, b * k, c * k, d * k),
+                            POp::C(a, b, c, d, e, f) => POp::C(a * k, b * k, c * k, d * k, e * k, f * k),
+                            o => o,
+                        }
+                    };
+                    let mut ops = vec![sc(alpha[a0])];
+                    if a1 < alpha.len() {
+                        ops.push(sc(alpha[a1]));
+                    }
+                    for xf in &xfs2 {
+                        l.states += 1;
+                        l.transitions += 1;
+                        l.traces += 1;
+                        l.evals += 1;
+                        l.nontrivial += 1;
+                        match eval_transform(&ops, false, xf) {
+                            Ok(h) => l.outcome(h),
+                            Err(v) => run.report(500 + a0, v),
+                        }
+                    }
+                }
+            }
+        });
         run.sample(format!("kind=transform xf=0.8660254,0.5,-0.5,0.8660254,0.0,0.0 path={}", PathSpec { evenodd: true, ops: vec![alpha[0], alpha[4], alpha[8]] }));
     }
 
@@ -297,7 +367,7 @@ impl Check for C20 {
         let m = kv(case);
         match kv_s(&m, "kind")? {
             "rect" => Ok(eval_rect(pf(&m, "x")?, pf(&m, "y")?, pf(&m, "w")?, pf(&m, "h")?, kv_i(&m, "prefix")? != 0).err()),
-            "arc" => Ok(eval_arc(pf(&m, "cx")?, pf(&m, "cy")?, pf(&m, "r")?, pf(&m, "start")?, pf(&m, "sweep")?, kv_i(&m, "cur")? != 0).err()),
+            "arc" => Ok(eval_arc(pf(&m, "cx")?, pf(&m, "cy")?, pf(&m, "r")?, pf(&m, "start")?, pf(&m, "sweep")?, kv_i(&m, "cur")? as u8).err()),
             "transform" => {
                 let xv: Vec<f32> = kv_s(&m, "xf")?.split(',').map(|t| t.parse::<f32>().map_err(|e| e.to_string())).collect::<Result<_, _>>()?;
                 let mut xf = IDENT;
